@@ -192,6 +192,7 @@ func run(c *vf.Ctx) {
 	phase("known_hosts")
 	e.totality()
 	phase("totality")
+	e.hardening()
 	e.keygenKeys()
 	phase("ssh-keygen keys")
 }
@@ -727,6 +728,10 @@ var optAtoms = []string{
 	"environment=\"A=tab\there\"",
 	`x"mid word"y`,
 	`principals=",a,!,b\\,c,"`,
+	// hardening: one case on each side of the scanner's special cases — a quote as the very first
+	// byte of the line (the `i == 0` branch), an escaped quote outside quotes
+	`"lead quote",x`,
+	`a\"b`,
 }
 
 var optUnterminated = []string{
